@@ -537,3 +537,19 @@ func initialHeapTerm(class string, srt *Sort) *Term {
 	}
 	return mkVar(heapVarName(class, "0"), srt)
 }
+
+// aliasAddr gives a pointer to a location inside an object (embedded struct, slice element) a stable
+// identity: an injective-looking uninterpreted function of the owning reference (and index).
+func aliasAddr(st *State, lv *lvalue) *Term {
+	var a *Term
+	switch lv.kind {
+	case lvHeap:
+		a = mkUF("addr:"+lv.prefix, SInt, lv.ref)
+	case lvElem:
+		a = mkUF("addr:"+lv.prefix, SInt, lv.ref, lv.idx)
+	default:
+		a = mkVar(freshName("alias"), SInt)
+	}
+	st.assume(Gt(a, mkInt(0)))
+	return a
+}
